@@ -56,8 +56,16 @@ def run(ctx, ck) -> None:
             n += 1
             t = _ret(fn)
             S, o = ('var', fn.args.args[0].arg), ('var', fn.args.args[1].arg)
-            want = ('call', ('attr', S, helper), (('attr', ('var', 'operator'), opname), o), ())
-            ck.expect('V1', t == want and world.qualify(land, 'operator') == 'operator', fn, f'{dunder} -> {helper}(operator.{opname}, other)',
+            from ..terms import canon_lambda
+
+            op_t = term(ast.parse(f'operator.{opname}', mode='eval').body, {})
+            binops = {'add': '+', 'sub': '-', 'mul': '*', 'truediv': '/', 'matmul': '@'}
+            if opname in binops:
+                op_t = ('lambda', ('_a', '_b'), ('binop', binops[opname], ('var', '_a'), ('var', '_b')))
+            want = ('call', ('attr', S, helper), (op_t, o), ())
+            if t is not None and t[0] == 'call' and len(t[2]) == 2:
+                t = (t[0], t[1], (canon_lambda(t[2][0]), t[2][1]), t[3])
+            ck.expect('V1', t == want, fn, f'{dunder} -> {helper}(operator.{opname}, other)',
                       f'{dunder} returns {show(t)} instead of self.{helper}(operator.{opname}, other): the wrong operation or operand order is applied component-wise', instance=dunder)
     ck.floor('V1', n, 10, 'arithmetic dunders of the Stokes container')
     for helper, own_first in (('_operation', True), ('_roperation', False)):
